@@ -52,6 +52,13 @@ func hostileIDs() []hostile {
 		{"dot", "./."},
 		{"empty", ""},
 		{"trailing-slash", "../../t/"},
+		// sibling directories whose names start with the root directory's name ("root", see newSandbox): a containment
+		// test done on strings instead of path components lets these through
+		{"sibling-sharing-root-name-prefix", "../root.bak/k"},
+		{"sibling-sharing-root-name-prefix", "../root2/k"},
+		{"sibling-sharing-root-name-prefix", "../rootx"},
+		{"sibling-sharing-root-name-prefix", "a/../../root-old/deep/k"},
+		{"sibling-sharing-root-name-prefix", "../../l3.bak/k"},
 	}
 }
 
@@ -178,6 +185,10 @@ func newSandbox(tag string) sandbox {
 	d := ksrig.ScratchDir(tag)
 	root := filepath.Join(d, "l1", "l2", "l3", "root")
 	os.MkdirAll(filepath.Dir(root), 0o700)
+	// existing siblings an escaping path could land in (see hostileIDs)
+	for _, sib := range []string{"l1/l2/l3/root.bak", "l1/l2/l3/root2", "l1/l2/l3/root-old/deep", "l1/l2/l3.bak"} {
+		os.MkdirAll(filepath.Join(d, sib), 0o700)
+	}
 	return sandbox{d, root}
 }
 
